@@ -289,6 +289,16 @@ static void do_cert(char **tok, int n)
         else if (!strcmp(v, "sha512")) md = EVP_sha512();
     }
     if (EVP_PKEY_id(sk) == EVP_PKEY_ED25519) md = NULL;
+    if ((v = opt(tok, n, "pad")) && !strcmp(v, "pss") && EVP_PKEY_id(sk) == EVP_PKEY_RSA)
+    {
+        /* RSASSA-PSS signature (salt length = digest length) by an rsaEncryption key */
+        EVP_MD_CTX *mc = EVP_MD_CTX_new();
+        EVP_PKEY_CTX *pc = NULL;
+        if (!mc || EVP_DigestSignInit(mc, &pc, md, NULL, sk) != 1 || EVP_PKEY_CTX_set_rsa_padding(pc, RSA_PKCS1_PSS_PADDING) != 1
+            || EVP_PKEY_CTX_set_rsa_pss_saltlen(pc, RSA_PSS_SALTLEN_DIGEST) != 1 || !X509_sign_ctx(x, mc)) { ERR_print_errors_fp(stderr); exit(2); }
+        EVP_MD_CTX_free(mc);
+    }
+    else
     if (!X509_sign(x, sk, md)) { ERR_print_errors_fp(stderr); exit(2); }
     v = opt(tok, n, "sig");
     if (v && strcmp(v, "ok"))
